@@ -36,6 +36,7 @@ from .. import poly
 from ..astutil import call_name, calls, const_eval, dotted, names_in, param_names, stmts, walk_local, NotConst
 from ..cfg import CFG
 from ..core import AnalysisError, Mutant
+from ..exprnorm import check_spec
 
 EXPLANATION = (
     "Algebraic and structural rules over geometry.py, box.py, transform.py, util.py: canonical "
@@ -356,10 +357,8 @@ def r2_definitions(ctx):
     box_forward(ctx, g, "dihedral", dc)
     # util helpers
     u = ctx.src(UTL)
-    vd = ret_expr(u.func("vector_dot"))
-    ctx.ob("R2.vector-dot", UTL, "vector_dot", ast.unparse(vd),
-           ast.unparse(vd) in ("(v1 * v2).sum(axis=-1)", "np.sum(v1 * v2, axis=-1)"),
-           "vector_dot sums the products over the last (xyz) axis", u.func("vector_dot").lineno)
+    check_spec(ctx, "R2.vector-dot", UTL, "vector_dot", "np.sum(v1 * v2, axis=-1)",
+               "vector_dot sums the products over the last (xyz) axis")
     nv = u.func("norm_vector")
     fac = single_def(nv, "factor")
     okf = call_name(fac) == "np.linalg.norm" and any(k.arg == "axis" and ast.unparse(k.value) == "-1" for k in fac.keywords)
@@ -367,9 +366,8 @@ def r2_definitions(ctx):
     okd = bool(augs) and all(isinstance(a.op, ast.Div) and ast.unparse(a.target) == "v" and "factor" in names_in(a.value) for a in augs)
     ctx.ob("R2.norm-vector", UTL, "norm_vector", "v /= norm(v, axis=-1)", okf and okd,
            "norm_vector divides in place by the Euclidean norm along the last axis", nv.lineno)
-    cen = ret_expr(g.func("centroid"))
-    ctx.ob("R2.centroid", GEO, "centroid", ast.unparse(cen), ast.unparse(cen) == "np.mean(coord(atoms), axis=-2)",
-           "the centroid averages over the atom axis (-2)", g.func("centroid").lineno)
+    check_spec(ctx, "R2.centroid", GEO, "centroid", "np.mean(coord(atoms), axis=-2)",
+               "the centroid averages over the atom axis (-2)")
     backbone(ctx, g)
 
 
@@ -591,24 +589,12 @@ def r3_periodic(ctx):
 
 def r4_box(ctx):
     b = ctx.src(BOX)
-    c2f, f2c = ret_expr(b.func("coord_to_fraction")), ret_expr(b.func("fraction_to_coord"))
-    ctx.ob("R4.fraction-inverse", BOX, "coord_to_fraction", ast.unparse(c2f),
-           ast.unparse(c2f) in ("np.matmul(coord, linalg.inv(box))", "coord @ linalg.inv(box)"),
-           "fractions are coordinates times the inverse box (row vectors)", b.func("coord_to_fraction").lineno)
-    ctx.ob("R4.fraction-inverse", BOX, "fraction_to_coord", ast.unparse(f2c),
-           ast.unparse(f2c) in ("np.matmul(fraction, box)", "fraction @ box"),
-           "coordinates are fractions times the box on the same side as coord_to_fraction uses its inverse", b.func("fraction_to_coord").lineno)
-    m = b.func("move_inside_box")
-    d = assigns(m)
-    ret = ret_expr(m)
-    ok = False
-    if isinstance(ret, ast.Call) and call_name(ret) == "fraction_to_coord" and isinstance(ret.args[0], ast.Name):
-        v = d.get(ret.args[0].id, [None])[0]
-        if isinstance(v, ast.BinOp) and isinstance(v.op, ast.Mod) and const_eval(v.right) == 1 and isinstance(v.left, ast.Name):
-            w = d.get(v.left.id, [None])[0]
-            ok = w is not None and ast.unparse(w) == "coord_to_fraction(coord, box)" and ast.unparse(ret.args[1]) == "box"
-    ctx.ob("R4.move-inside", BOX, m.name, ast.unparse(ret), ok,
-           "move_inside_box = fraction_to_coord(coord_to_fraction(coord, box) % 1, box): a lattice-vector change into [0,1)^3", m.lineno)
+    check_spec(ctx, "R4.fraction-inverse", BOX, "coord_to_fraction", "coord @ np.linalg.inv(box)",
+               "fractions are coordinates times the inverse box (row vectors)")
+    check_spec(ctx, "R4.fraction-inverse", BOX, "fraction_to_coord", "fraction @ box",
+               "coordinates are fractions times the box, on the side coord_to_fraction uses its inverse")
+    check_spec(ctx, "R4.move-inside", BOX, "move_inside_box", "fraction_to_coord(coord_to_fraction(coord, box) % 1, box)",
+               "move_inside_box wraps the fractions into [0,1): a lattice-vector change")
     # repeat_box_coord: loops vs tile count
     r = b.func("repeat_box_coord")
     loops = []
@@ -673,23 +659,11 @@ def r4_box(ctx):
            "the molecule is moved as a whole by (centre wrapped into box) - centre: a lattice vector", loop.lineno)
     ctx.ob("R4.remove-pbc-copy", BOX, rp.name, "new_atoms = atoms.copy()",
            ast.unparse(single_def(rp, "new_atoms")) == "atoms.copy()", "the input structure is not modified", rp.lineno)
-    rc = b.func("remove_pbc_from_coord")
-    d = assigns(rc)
-    pairs = d.get("index_pairs", [None])[0]
-    okp = pairs is not None and ast.unparse(pairs) == "np.stack([np.arange(0, coord.shape[-2] - 1), np.arange(1, coord.shape[-2])], axis=1)"
-    ctx.ob("R4.pbc-neighbours", BOX, rc.name, "index_pairs", okp, "consecutive atoms (k, k+1) for k in 0..n-2", rc.lineno)
-    nd = d.get("neighbour_disp", [None])[0]
-    okd = nd is not None and call_name(nd) == "index_displacement" and {"periodic=True", "box=box"} <= {f"{k.arg}={ast.unparse(k.value)}" for k in nd.keywords}
-    ctx.ob("R4.pbc-minimum-image", BOX, rc.name, ast.unparse(nd) if nd is not None else "neighbour_disp", okd,
-           "neighbour displacements are minimum-image displacements in the given box", rc.lineno)
-    cs = d.get("absolute_disp", [None])[0]
-    ctx.ob("R4.pbc-cumsum", BOX, rc.name, ast.unparse(cs) if cs is not None else "absolute_disp",
-           cs is not None and ast.unparse(cs) == "np.cumsum(neighbour_disp, axis=-2)", "positions are accumulated along the atom axis", rc.lineno)
-    base = d.get("base_coord", [None])[0]
-    sts = [ast.unparse(s) for s in stmts(rc)]
-    ctx.ob("R4.pbc-base", BOX, rc.name, "base_coord", base is not None and ast.unparse(base) == "move_inside_box(coord[..., 0:1, :], box)"
-           and "sanitized_coord[..., 0:1, :] = base_coord" in sts and "sanitized_coord[..., 1:, :] = base_coord + absolute_disp" in sts,
-           "the first atom is wrapped into the box and all others follow by accumulated displacements", rc.lineno)
+    check_spec(ctx, "R4.pbc-reassembly", BOX, "remove_pbc_from_coord",
+               "__set__(__set__(np.zeros(coord.shape, coord.dtype), __idx__[..., 0:1, :], move_inside_box(coord[..., 0:1, :], box)), "
+               "__idx__[..., 1:, :], move_inside_box(coord[..., 0:1, :], box) + np.cumsum(index_displacement(coord, "
+               "np.stack([np.arange(0, coord.shape[-2] - 1), np.arange(1, coord.shape[-2])], axis=1), box=box, periodic=True), axis=-2))",
+               "first atom wrapped into the box, every other atom = first + accumulated minimum-image displacements of consecutive atoms (k, k+1)")
     # is_orthogonal pairs
     io = b.func("is_orthogonal")
     prs = set()
@@ -773,8 +747,7 @@ def r4_box(ctx):
             okb = False
     ctx.ob("R4.unitcell-matrix", BOX, vu.name, "box rows a, b, c", okb, "box vectors are the rows; lower triangular", vu.lineno)
     # box_volume
-    bv = ret_expr(b.func("box_volume"))
-    ctx.ob("R4.volume", BOX, "box_volume", ast.unparse(bv), ast.unparse(bv) == "np.abs(linalg.det(box))", "volume = |det(box)|", bv.lineno)
+    check_spec(ctx, "R4.volume", BOX, "box_volume", "np.abs(np.linalg.det(box))", "volume = |det(box)|")
 
 
 def dead_params(ctx, rule, rels, minimum=40):
@@ -854,13 +827,9 @@ def r5_transform(ctx):
            "documented order x, then y, then z: with column vectors the product is rot_z @ rot_y @ rot_x", comp[0].lineno)
     # matrix_rotate: R v (column convention) for any rank
     u = ctx.src(UTL)
-    mr = u.func("matrix_rotate")
-    core = [ast.unparse(st.value) for st in stmts(mr) if isinstance(st, ast.Assign) and "np.dot" in ast.unparse(st.value)]
-    ctx.ob("R5.matrix-rotate", UTL, "matrix_rotate", str(core), core == ["np.dot(matrix, v.T).T"],
-           "matrix_rotate applies matrix @ v to every row vector", mr.lineno)
-    resh = [ast.unparse(st) for st in stmts(mr) if isinstance(st, ast.Assign) and "reshape" in ast.unparse(st)]
-    ctx.ob("R5.matrix-rotate-shape", UTL, "matrix_rotate", str(resh), resh == ["v = v.reshape(-1, 3)", "v = v.reshape(*orig_shape)"],
-           "stacks are flattened to rows and restored to the original shape", mr.lineno)
+    check_spec(ctx, "R5.matrix-rotate", UTL, "matrix_rotate",
+               "np.dot(matrix, v.reshape(-1, 3).T).T.reshape(*v.shape) if v.ndim > 2 else np.dot(matrix, v.T).T",
+               "matrix_rotate applies matrix @ x to every coordinate row; stacks are flattened and restored")
     # rotate_about_axis: Rodrigues matrix
     f = t.func("rotate_about_axis")
     d = assigns(f)
@@ -935,20 +904,12 @@ def r5_transform(ctx):
     pairing(ctx, f, cfg, "positions -= origin_position", None, "origin_position is not None", rot, "R5.origin-pairing")
     pairing(ctx, f, cfg, None, "positions += target_position", "target_position is not None", rot, "R5.target-pairing")
     # rotate_centered
-    f = t.func("rotate_centered")
-    d = assigns(f)
-    seq = [ast.unparse(d.get(k, [ast.Constant(None)])[0]) for k in ("translated", "rotated", "translated_back")]
-    ctx.ob("R5.centered-sequence", TRF, f.name, str(seq),
-           seq == ["translate(atoms, -center)", "rotate(translated, angles)", "translate(rotated, center)"]
-           and ast.unparse(ret_expr_last(f)) == "translated_back",
-           "move centroid to origin, rotate, move back by the same vector", f.lineno)
-    cd = [ast.unparse(x) for x in d.get("center", [])]
-    ctx.ob("R5.centered-centroid", TRF, f.name, str(cd), cd[:1] == ["coord(centroid(atoms))"], "centre is the centroid of the input", f.lineno)
-    # translate
-    f = t.func("translate")
-    sts = [ast.unparse(s) for s in stmts(f)]
-    ctx.ob("R5.translate", TRF, f.name, "positions += vector", "positions += vector" in sts and "positions = coord(atoms).copy()" in sts,
-           "translation adds the vector to a copy of the coordinates", f.lineno)
+    check_spec(ctx, "R5.centered-sequence", TRF, "rotate_centered",
+               "atoms.copy() if len(coord(atoms).shape) == 1 else translate(rotate(translate(atoms, -coord(centroid(atoms))[..., np.newaxis, :]), angles), "
+               "coord(centroid(atoms))[..., np.newaxis, :])",
+               "move the centroid to the origin, rotate, move back by the same vector")
+    check_spec(ctx, "R5.translate", TRF, "translate", "_put_back(atoms, coord(atoms).copy() + np.asarray(vector))",
+               "translation adds the vector to a copy of the coordinates")
     # every transformation works on a copy
     n = 0
     for q in ("translate", "rotate", "rotate_about_axis", "align_vectors"):
@@ -1023,7 +984,7 @@ MUTANTS = [
     Mutant("repeat-amount-dropped", BOX, "repeat_box_coord(atoms.coord, atoms.box, amount)", "repeat_box_coord(atoms.coord, atoms.box)", "R4.repeat-forward"),
     Mutant("repeat-amount-dead", BOX, "repeat_box_coord(atoms.coord, atoms.box, amount)", "repeat_box_coord(atoms.coord, atoms.box)", "R4.param-used"),
     Mutant("remove-pbc-centre", BOX, "new_atoms.coord[..., mask, :] += center_in_box - center", "new_atoms.coord[..., mask, :] += center_in_box", "R4.remove-pbc-centre"),
-    Mutant("pbc-not-periodic", BOX, "coord, index_pairs, box=box, periodic=True", "coord, index_pairs, box=box, periodic=False", "R4.pbc-minimum-image"),
+    Mutant("pbc-not-periodic", BOX, "coord, index_pairs, box=box, periodic=True", "coord, index_pairs, box=box, periodic=False", "R4.pbc-reassembly"),
     Mutant("orthogonal-two-pairs", BOX, "& (np.abs(vector_dot(box[..., 1, :], box[..., 2, :])) < tol)", "& (np.abs(vector_dot(box[..., 0, :], box[..., 2, :])) < tol)", "R4.orthogonal-pairs"),
     Mutant("unitcell-alpha-beta", BOX, "alpha = np.arccos(np.dot(b, c) / (len_b * len_c))", "alpha = np.arccos(np.dot(a, c) / (len_a * len_c))", "R4.unitcell-angles"),
     Mutant("unitcell-cx", BOX, "c_x = len_c * np.cos(beta)", "c_x = len_c * np.cos(alpha)", "R4.unitcell-vectors"),
@@ -1037,5 +998,9 @@ MUTANTS = [
     Mutant("align-matrix-sign", TRF, "[vz, 0, -vx]", "[vz, 0, vx]", "R5.align-cross-matrix"),
     Mutant("centered-back", TRF, "translated_back = translate(rotated, center)", "translated_back = translate(rotated, -center)", "R5.centered-sequence"),
     Mutant("translate-in-place", TRF, "    positions = coord(atoms).copy()\n    vector = np.asarray(vector)", "    positions = coord(atoms)\n    vector = np.asarray(vector)", "R5.copy-input"),
+    Mutant("pbc-base-not-wrapped", BOX, "base_coord = move_inside_box(coord[..., 0:1, :], box)", "base_coord = coord[..., 0:1, :]", "R4.pbc-reassembly", kind="break"),
+    Mutant("refactor-matmul-operator", BOX, "return np.matmul(fraction, box)", "return fraction @ box", "R4.fraction-inverse", kind="silent"),
+    Mutant("refactor-temporaries", BOX, "    fractions = coord_to_fraction(coord, box)\n    fractions_rem = fractions % 1\n    return fraction_to_coord(fractions_rem, box)", "    return fraction_to_coord(coord_to_fraction(coord, box) % 1, box)", "R4.move-inside", kind="silent"),
+    Mutant("refactor-sum-function", UTL, "return (v1 * v2).sum(axis=-1)", "return np.sum(v2 * v1, axis=-1)", "R2.vector-dot", kind="silent"),
     Mutant("principal-no-reflection-fix", TRF, "            v[:, -1] *= -1", "            pass", "R5.principal-proper"),
 ]
